@@ -14,6 +14,7 @@ with compability wrapper for LADiM version 1 configuration
 
 from __future__ import annotations
 
+import glob
 import logging
 import sys
 from pathlib import Path
@@ -136,7 +137,7 @@ def configure_v2(config: dict[str, Any]) -> None:
     if "filename" not in config["grid"]:
         filename = Path(config["forcing"]["filename"])
         # glob if necessary and use first file
-        if ("*" in str(filename)) or ("?" in str(filename)):
+        if glob.has_magic(str(filename)):
             directory = filename.parent
             flist = list(directory.glob(filename.name))
             if flist:
@@ -217,7 +218,7 @@ def configure_v1(config: dict[str, Any]) -> dict[str, Any]:
     if not conf2["grid"]["filename"] and conf2["forcing"]["filename"]:
         filename = Path(conf2["forcing"]["filename"])
         # glob if necessary and use first file
-        if ("*" in str(filename)) or ("?" in str(filename)):
+        if glob.has_magic(str(filename)):
             directory = filename.parent
             filename = sorted(directory.glob(filename.name))[0]
         conf2["grid"]["filename"] = filename
